@@ -257,12 +257,12 @@ def run(ctx):
         plans.append((2, [(0, p), (1, 10 ** 9)]))
         plans.append((2, [(1, p), (0, 10 ** 9)]))
     two = [(p, q) for p in range(1, steps + 1) for q in range(1, steps + 1)]
-    two = rng.sample(two, min(len(two), 6000 if thorough else 260))
+    two = rng.sample(two, min(len(two), 6000 if ctx.tier == 'thorough' else 1200 if thorough else 260))
     for p, q in two:
         plans.append((2, [(0, p), (1, q), (0, 10 ** 9)]))
-    three = [(a, b) for a in range(0, steps + 1, 1 if thorough else 4) for b in range(0, steps + 1, 1 if thorough else 4)]
-    if not thorough:
-        three = rng.sample(three, min(len(three), 60))
+    three = [(a, b) for a in range(0, steps + 1, 1 if ctx.tier == 'thorough' else 4) for b in range(0, steps + 1, 1 if ctx.tier == 'thorough' else 4)]
+    if ctx.tier != 'thorough':
+        three = rng.sample(three, min(len(three), 200 if thorough else 60))
     for a, b in three:
         plans.append((3, [(0, a), (1, b), (2, 10 ** 9)]))
     for nth, plan in plans:
